@@ -144,3 +144,13 @@ def _iter_names(names: set[str]):
 
 def joined_from_generator_over_set(names: set[str]) -> str:
     return ", ".join(_iter_names(names))
+
+
+def joined_loop_variable_reuses_name(groups: dict[str, set[str]], first: set[str]) -> list[str]:
+    # the name `group` first holds a copy of a set (unordered); as a loop variable it is rebound to sorted lists
+    group = list(first)
+    size = len(group)
+    lines = [str(size)]
+    for group in [sorted(g) for g in groups.values()]:
+        lines.append(", ".join(group))
+    return lines
